@@ -1147,3 +1147,50 @@ Example multi_f6k :
               mkItem KInt 64 (EBin OAdd (ECast KInt 64 (ELit (2 ^ 30))) (ECast KInt 64 (ELit (2 ^ 30)))) 1 0 ]
   = Ok ([2 ^ 31; 2 ^ 31; 2 ^ 31; 2 ^ 31], [2 ^ 31; 2 ^ 64 - 2 ^ 31]).
 Proof. vm_compute. reflexivity. Qed.
+
+(* ------------------------------------------------------------------ *)
+(* the same expression folded at several types                          *)
+
+(* T(A) for every T carries the same mpa.Int (a cast copies the ssa.Value and
+   shares the *mpa.Int): uint32(A) and uint64(A) differ in the declared type only *)
+Theorem casts_share_the_mint k1 n1 k2 n2 a : 0 <= a ->
+  exists t1 t2 m, operand k1 n1 a = Ok (CI t1 m) /\ operand k2 n2 a = Ok (CI t2 m).
+Proof. intros Ha. rewrite !operand_repr by assumption. do 3 eexists. split; reflexivity. Qed.
+
+(* ... and the fold of those operands depends on the declared type: A = B = 100000,
+   a * b is 1410065408 at uint32 and 10000000000 at uint64.  Hence no function of
+   the operator and the operand mpa.Int objects alone (a memo keyed by them) can
+   agree with the folder: Binary.Eval is a function of the TYPED operands. *)
+Example mul_at_two_types :
+  exists m t32 t64,
+    operand KUint 32 100000 = Ok (CI t32 m) /\ operand KUint 64 100000 = Ok (CI t64 m) /\
+    (do c <- evalConst OMul (CI t32 m) (CI t32 m); Ok (const_wires c)) = Ok 1410065408 /\
+    (do c <- evalConst OMul (CI t64 m) (CI t64 m); Ok (const_wires c)) = Ok 10000000000.
+Proof. do 3 eexists. repeat split; vm_compute; reflexivity. Qed.
+
+Theorem fold_needs_the_operand_types :
+  ~ exists memo : binop -> mint -> mint -> res cval,
+      forall op t1 t2 m1 m2, evalConst op (CI t1 m1) (CI t2 m2) = memo op m1 m2.
+Proof.
+  intros [memo H].
+  pose (m := mkM 32 100000).
+  pose (t32 := mkT KUint 32 17). pose (t64 := mkT KUint 64 17).
+  pose proof (H OMul t32 t32 m m) as H1. pose proof (H OMul t64 t64 m m) as H2.
+  rewrite <- H2 in H1. vm_compute in H1. discriminate H1.
+Qed.
+
+(* In the model every call of the helper is folded on its own: the values the
+   calls produce do not depend on the constant table, the names emitted so far
+   or the calls before — only on each call's own typed operands. *)
+Theorem calls_fold_independently calls : forall tbl names t n ps,
+  reg_calls calls tbl names = Ok (t, n, ps) ->
+  res_map (fun c => do v <- eval (cex c); consumer_prep (item_of_call c) v) calls = Ok ps.
+Proof.
+  induction calls as [|c rest IH]; intros tbl names t n ps H; simpl in H |- *.
+  - inversion H. reflexivity.
+  - destruct (res_map eval (cargs c)) as [avals| |]; simpl in H; try discriminate.
+    destruct (eval (cex c)) as [v| |]; simpl in H |- *; try discriminate.
+    destruct (consumer_prep (item_of_call c) v) as [p| |]; simpl in H |- *; try discriminate.
+    destruct (reg_calls rest _ _) as [[[t' n'] ps']| |] eqn:E; simpl in H; try discriminate.
+    inversion H; subst. rewrite (IH _ _ _ _ _ E). reflexivity.
+Qed.
